@@ -82,6 +82,12 @@ UNARY = {
     "sph_j2": (lambda x: ((3 - x * x) * math.sin(x) - 3 * x * math.cos(x)) / x ** 3, lambda x: 0.05 < abs(x) < 50),
 }
 CONSTS = [0.5, 1.5, 2.0, -0.75, 3.0, 0.1, -2.5, 7.0, 1.0]
+# exponents of x ** c / powf: whole values (routed to powi by some implementations), and every value a "fast path"
+# might single out: the roots (1/2, 1/3, 1/4 and their multiples and negatives), neighbours of 1/3 and 2, tiny and
+# irrational ones
+FLOAT_EXPONENTS = [0.5, 1.5, 2.0, 2.5, -1.5, 3.0, 0.0, 1.0, 4.0, 5.0, 6.0, 7.0, 9.0, 10.0, 12.0, 33.0, -2.0, -3.0, -7.0, 6.5,
+                   1.0 / 3.0, 2.0 / 3.0, -1.0 / 3.0, 4.0 / 3.0, 0.25, 0.75, -0.5, -0.25, -1.0, 0.1, 0.2, 1.0 / 7.0, 0.3333333333333333, 0.33333333333333337,
+                   0.3333333333333332, 2.0000000000000004, 1.9999999999999998, math.pi, math.e, 1e-3, 1e-9, -1e-9, 0.125, 1.25]
 
 
 def gen_ops(rng, re, n_ops, allow_float_lhs=True, allow_from_re=False):
@@ -106,11 +112,15 @@ def gen_ops(rng, re, n_ops, allow_float_lhs=True, allow_from_re=False):
                     if name != "div" or abs(re[b]) > 0.05:
                         val = {"add": x + re[b], "sub": x - re[b], "mul": x * re[b], "div": x / re[b] if re[b] else 0}[name]
                         op = {"op": name, "a": a, "b": b}
+                        if rng.below(4) == 0:
+                            op["inplace"] = True  # written as  y = x; y += b  (x must stay what it was: registers are values)
                 elif kind == 4:
                     c = rng.pick(CONSTS)
                     name = rng.pick(["add_f", "sub_f", "mul_f", "div_f"])
                     val = {"add_f": x + c, "sub_f": x - c, "mul_f": x * c, "div_f": x / c}[name]
                     op = {"op": name, "a": a, "c": c}
+                    if rng.below(4) == 0:
+                        op["inplace"] = True
                 elif kind == 5 and allow_float_lhs:
                     c = rng.pick(CONSTS)
                     name = rng.pick(["radd_f", "rsub_f", "rmul_f", "rdiv_f"])
@@ -122,11 +132,15 @@ def gen_ops(rng, re, n_ops, allow_float_lhs=True, allow_from_re=False):
                     name = rng.pick(["powi", "pow_i"])
                     if abs(x) > 0.05 and abs(x) < 20:
                         op, val = {"op": name, "a": a, "n": n}, x ** n
+                        if name == "pow_i" and rng.below(4) == 0:
+                            op["inplace"] = True
                 elif kind == 7:
-                    c = rng.pick([0.5, 1.5, 2.0, 2.5, -1.5, 3.0, 0.0, 1.0, 4.0, 5.0, 6.0, 7.0, 9.0, 10.0, 12.0, 33.0, -2.0, -3.0, -7.0, 6.5])
+                    c = rng.pick(FLOAT_EXPONENTS)
                     name = rng.pick(["powf", "pow_f", "pow_f"])
                     if 0.05 < x < 20 and abs(c * math.log(x)) < 12:
                         op, val = {"op": name, "a": a, "c": c}, x ** c
+                        if name == "pow_f" and rng.below(5) == 0:
+                            op["inplace"] = True
                 elif kind == 8:
                     b = rng.below(len(re))
                     name = rng.pick(["powd", "pow_d"])
@@ -379,6 +393,24 @@ def py_step(op, r):
     c = unbits(op["c"]) if "c" in op else None
     if c is not None and op.get("ckind", "float") != "float":
         c = as_kind(c, op["ckind"])
+    if op.get("inplace"):
+        # augmented assignment through a second name for the same object; the Rust program is  let mut y = x.clone(); y += b;
+        y = a
+        if name in ("add", "add_f"):
+            y += b if name == "add" else c
+        elif name in ("sub", "sub_f"):
+            y -= b if name == "sub" else c
+        elif name in ("mul", "mul_f"):
+            y *= b if name == "mul" else c
+        elif name in ("div", "div_f"):
+            y /= b if name == "div" else c
+        elif name == "pow_i":
+            y **= int(op["n"])
+        elif name == "pow_f":
+            y **= c
+        else:
+            raise SystemExit(f"harness error: no in-place form of {name}")
+        return y
     if name == "add": return a + b
     if name == "sub": return a - b
     if name == "mul": return a * b
@@ -539,9 +571,11 @@ def run_job(nd, job, ref):
             m = run_array_plan(job, regs, ref)
             if m is not None:
                 return m
+        born = [[fbits(v) for v in flat(r)] for r in regs]  # parts of every register when it was created
         for k, op in enumerate(job["ops"] if "array_plan" not in job else []):
             try:
                 regs.append(py_step(op, regs))
+                born.append([fbits(v) for v in flat(regs[-1])])
             except BaseException as e:  # noqa: BLE001 - includes pyo3's PanicException
                 if isinstance(e, (SystemExit, MemoryError, KeyboardInterrupt)):
                     raise
@@ -549,6 +583,11 @@ def run_job(nd, job, ref):
                         "rust_display": ref["regs"][n_in + k]["repr"]}
         for i, (r, rr) in enumerate(zip(regs, ref["regs"])):
             what = f"input {i}" if i < n_in else f"step {i - n_in} ({job['ops'][i - n_in]['op']})"
+            if i < len(born) and [fbits(v) for v in flat(r)] != born[i]:
+                users = [f"step {k} ({o['op']}{', in-place form' if o.get('inplace') else ''})" for k, o in enumerate(job["ops"]) if i in (o.get("a"), o.get("b"), o.get("d"))]
+                return {"at": i, "what": what + ": the register was changed after it was created - an operation modified its operand (registers are values)",
+                        "when_created": [float.hex(unbits(h)) for h in born[i]], "now": [float.hex(x) for x in flat(r)], "used_by": users, "python_repr": repr(r), "rust_display": rr["repr"],
+                        "register_changed": True}
             if not same_bits(flat(r), rr["parts"]):
                 return {"at": i, "what": what, "python_parts": [float.hex(x) for x in flat(r)], "rust_parts": [float.hex(unbits(h)) for h in rr["parts"]],
                         "python_repr": repr(r), "rust_display": rr["repr"]}
@@ -648,6 +687,8 @@ def finding_key(job, m):
         st = next((t for t in job["array_plan"]["steps"] if t["first_out"] == m["at"]), None)
         kind = job["array_plan"]["arrays"][st["array"]]["dtype"] if st else "?"
         return f"conformance:operand_modified:{'x ' + st['op'] + ' array' if st and st['side'] == 'x_left' else 'array op x'}:{kind}_array"
+    if m.get("register_changed"):
+        return f"conformance:{who}:operand_modified"
     what = m["what"]
     opname = what.split("(")[-1].rstrip(")") if "(" in what and what.startswith("step") else what.split(":")[0]
     return f"conformance:{who}:{opname}"
